@@ -241,6 +241,14 @@ class ConvexSpheropolyhedron(Shape3D):
         if np.all(in_polyhedron) or self.radius == 0:
             return in_polyhedron
 
+        # Points within rounding error of the core's surface are well inside the
+        # rounded shape; the slab, cylinder and cap tests below only cover the
+        # outside of the core.
+        extent = np.max(np.ptp(self.polyhedron.vertices, axis=0))
+        in_polyhedron = np.all(
+            point_plane_distances <= min(self.radius, 1e-9 * extent), axis=1
+        )
+
         # Compute extrusions of the faces
         extruded_faces = []
         for face, normal in zip(self.polyhedron.faces, self.polyhedron.normals):
